@@ -478,6 +478,7 @@ package mcp
 //@   snapshot afterDecode after call decodeCursor
 //@   track encodeCursor as enc
 //@   track fs.uniqueID as uid
+//@   requires params != nil   // a typed pointer: cursorPtr takes the address of a field of it
 //@   requires pageSize > 0   // all NewServer guarantees (a negative size panics there, zero becomes the default)
 //@   nopanic
 //@   rangeloop invariant @page-never-exceeds-its-size local(count) == len(local(features)) && local(count) <= pageSize
